@@ -44,7 +44,8 @@ def main(tier=None, replay=None):
     ck.count('records-reuse', sum(1 for m in meta if m['reuse']))
     ck.count('records-strip', sum(1 for m in meta if m['strip']))
     ck.count('records-static-batch-after-transitions', sum(1 for m in meta if m.get('static')))
-    ck.need_cover(['completion-pairs', 'all-known-8v-lanes', 'records-m4', 'records-m8', 'records-reuse', 'records-strip', 'records-static-batch-after-transitions'])
+    ck.count('records-4-valued-cycles', sum(1 for m in meta if m['m'] == 4 and m['cyc']))
+    ck.need_cover(['completion-pairs', 'all-known-8v-lanes', 'records-m4', 'records-m8', 'records-reuse', 'records-strip', 'records-static-batch-after-transitions', 'records-4-valued-cycles'])
     for mt in meta:
         ck.nontrivial.add(gen.digest(mt['circuit']) + str(mt['m']))
     ck.sample(dict(m=meta[-1]['m'], lanes=meta[-1]['lanes'], stim_codes_row0=meta[-1]['stim'][0], resp_row_last=recs[-1]['resp'][-1] if recs[-1]['resp'] else None))
